@@ -75,7 +75,40 @@ def run_zerox(ctx, pid, ns, v):
                           {'kind': 'ix_zerox', 'sig': d[3], 'pk': d[4], 'tr': d[5]})
     ctx.traces += n_cases
     ctx.evaluations += n_cases
+    classes = flank_class_counts(ns, v)
+    ctx.nontrivial += classes['cases_with_multi_inverted_zero_or_tie']
+    ctx.parts[-1].update({'flank_classes': classes})
     ctx.sample({'mc_input': {'sig': [0, 2, 1, 1, 2, 0][:ns], 'peaks': [1, 4], 'troughs': [0, 3]},
                 'space': 'every signal [0..%d -> 0..%d] x every subset of >= 2 sample indices as alternating extrema x either kind first' % (ns - 1, v)})
     ctx.parts[-1].update({'inputs': n_cases, 'disagreements': n_dis})
     return res
+
+
+def flank_class_counts(ns, v):
+    """Statistics over MC_Zerox's input space (evidence only, no verdict): how many cases contain a flank with several crossings of the
+    half-height, a tie with it, an inverted flank or an all-zero segment."""
+    import itertools
+    import numpy as np
+    cnt = {'multi': 0, 'tie': 0, 'inverted': 0, 'zero': 0, 'cases_with_multi_inverted_zero_or_tie': 0}
+    sigs = np.array(list(itertools.product(range(v + 1), repeat=ns)))[:, ::-1]
+    for sm in range(1 << ns):
+        idx = [j for j in range(ns) if (sm >> j) & 1]
+        if len(idx) < 2:
+            continue
+        for pf in (0, 1):
+            hit = np.zeros(len(sigs), dtype=bool)
+            for k in range(len(idx) - 1):
+                a, b = idx[k], idx[k + 1]
+                rise = (k % 2 == 1) if pf else (k % 2 == 0)
+                seg = sigs[:, a:b + 1]
+                mid2 = seg[:, 0] + seg[:, -1]
+                below = (2 * seg <= mid2[:, None]) if rise else (2 * seg > mid2[:, None])
+                cross = (below[:, :-1] & ~below[:, 1:]).sum(axis=1)
+                zero = (seg == 0).all(axis=1)
+                inv = (seg[:, 0] > seg[:, -1]) if rise else (seg[:, 0] < seg[:, -1])
+                tie = ((2 * seg[:, 1:-1] == mid2[:, None]).any(axis=1)) if b - a > 1 else np.zeros(len(sigs), dtype=bool)
+                multi = (cross >= 2) & ~zero & ~inv
+                cnt['multi'] += int(multi.sum()); cnt['tie'] += int(tie.sum()); cnt['inverted'] += int((inv & ~zero).sum()); cnt['zero'] += int(zero.sum())
+                hit |= multi | tie | inv | zero
+            cnt['cases_with_multi_inverted_zero_or_tie'] += int(hit.sum())
+    return cnt
